@@ -16,6 +16,7 @@ import (
 	"net/http"
 	"net/netip"
 	"os"
+	"syscall"
 	"path/filepath"
 	"sort"
 	"strings"
@@ -63,6 +64,8 @@ type stOpts struct {
 	panicSig     string // signature for a panic in one of the station's own goroutines ("" = the process crashes, as before)
 	geo          int    // GeoIP database: 0 = none (empty database), 1 = every address has a country code and an ASN, 2 = country "unk" (no ASN lookup), 3 = lookups fail, 4 = IPv4-only database (IPv6 lookups fail with the MaxMind reader's error, which quotes the address)
 	extraKeys    int    // the station holds this many other private keys BEFORE its current one (key rotation: privkey_path names a directory); clients use the current key
+	ownRedis     bool   // with realDetector: the station builds its go-redis client itself (real getRedisClient / initRedisClient on first use); the world only adds a dialer into the simulated network to the station's options
+	redisDown    int    // with ownRedis: the first redisDown dials are refused (redis-server is not up yet when the station first uses the channel)
 	realDetector bool   // keep the real sendToDetector / clearDetector and give them a go-redis client over a simulated connection
 }
 
@@ -267,6 +270,36 @@ func newStWorld(r *sim.Run, s *hook.Sched, tp *sim.Tape, o stOpts) *stWorld {
 // RESP stub that records every PUBLISH.
 func (w *stWorld) startRedis() {
 	n := 0
+	if w.o.ownRedis {
+		cj.VerifOwnRedis(func(opt *redis.Options) *redis.Client {
+			opt.PoolSize = 4
+			opt.IdleCheckFrequency = -1
+			opt.MaxRetries = -1
+			opt.Dialer = func(ctx context.Context, network, addr string) (net.Conn, error) {
+				w.mu.Lock()
+				n++
+				k := n
+				w.mu.Unlock()
+				if k <= w.o.redisDown {
+					w.r.Fault("detector/redis-unreachable-at-first-use")
+					return nil, &net.OpError{Op: "dial", Net: "tcp", Addr: &net.TCPAddr{IP: net.IPv4(127, 0, 0, 1), Port: 6379}, Err: os.NewSyscallError("connect", syscall.ECONNREFUSED)}
+				}
+				c, srv := simnet.Pipe(w.r, fmt.Sprintf("redis%d.station", k), fmt.Sprintf("redis%d.stub", k), simnet.TCP("127.0.0.1", 50000+k), simnet.TCP("127.0.0.1", 6379))
+				c.Quiet, srv.Quiet = true, true
+				w.mu.Lock()
+				w.redisConns = append(w.redisConns, c, srv)
+				w.mu.Unlock()
+				go w.respStub(srv)
+				return c, nil
+			}
+			c := redis.NewClient(opt)
+			w.mu.Lock()
+			w.redis = c
+			w.mu.Unlock()
+			return c
+		})
+		return
+	}
 	w.redis = redis.NewClient(&redis.Options{
 		Addr:               "detector.invalid:6379",
 		PoolSize:           4,
